@@ -317,8 +317,9 @@ def act_add_symlink(rec, iso, kw):
 def act_add_eltorito(rec, iso, kw):
     # the model's add_eltorito: a plain entry; the first call names the catalog in every namespace
     # the image has
-    if (kw.get('boot_info_table') or kw.get('efi') or kw.get('boot_load_size') is not None
-            or kw.get('platform_id', 0) != 0 or not kw.get('bootable', True) or kw.get('boot_load_seg', 0) != 0):
+    # (platform, EFI flag, load size/segment and the bootable flag are fields of the catalog entry:
+    # C11's model; a boot info table changes what the boot file reads as: not in this model)
+    if kw.get('boot_info_table'):
         return None
     db = rec.paths(iso=kw.get('bootfile_path'))
     if db is None:
@@ -432,6 +433,15 @@ def pytest_configure(config):  # pylint: disable=unused-argument
     if not OUT:
         return
     os.makedirs(OUT, exist_ok=True)
+    if os.environ.get('VERIF_RECORD_ALWAYS') == '1':
+        # second pass: the same scenarios on objects that keep their metadata consistent after
+        # every call (the tests never ask for it; C06 says it must not matter)
+        init = pycdlib.PyCdlib.__init__
+
+        @functools.wraps(init)
+        def eager(self, always_consistent=False):  # pylint: disable=unused-argument
+            init(self, always_consistent=True)
+        pycdlib.PyCdlib.__init__ = eager
     # one clock for the whole run: the images the tests write are then reproducible, and re-mastering
     # them (C05) compares like with like
     import det
